@@ -189,7 +189,10 @@ func countPodFlavor(c *kit.Ctx, p *wPod) {
 		c.Count("flavor:pod:ephemeral-volume")
 	}
 	if (f>>8)&1 == 1 {
-		c.Count("flavor:pod:emptyDir+missing-claim")
+		c.Count("flavor:pod:emptyDir-volume")
+	}
+	if lostClaim(p) {
+		c.Count("flavor:pod:missing-claim")
 	}
 }
 
@@ -317,6 +320,16 @@ func genFault(r *kit.Rand, w *world, ctrl string) *fault {
 	switch {
 	case ctrl == "node":
 		f.Site = pick(r, nodeSites...)
+		for _, n := range w.Nodes {
+			if n.NoPid && f.Site == "SListClaims" { // a node without provider id never lists NodeClaims
+				f.Site = "SListPods"
+			}
+		}
+		for _, p := range w.Pods {
+			if lostClaim(p) && f.Site == "SGetPVC" {
+				f.Site = "SListVAs"
+			}
+		}
 	case w.Claim != nil && w.Claim.Del != nil:
 		f.Site = pick(r, finSites...)
 		var live []int64 // nodes the finalize will have to delete
@@ -702,6 +715,11 @@ func (rn *runner) history(stream string, r *kit.Rand) {
 			o = &opx{kind: "reconcile-node", ctrl: "node"}
 			if faults > 0 && r.Chance(50, 100) {
 				o.f = &fault{Site: pick(r, volumeSites...), Kind: pick(r, kinds...)}
+				for _, p := range w.Pods {
+					if lostClaim(p) && o.f.Site == "SGetPVC" {
+						o.f.Site = "SListVAs"
+					}
+				}
 				if o.f.Site == "SListVAs" || o.f.Site == "SListPodsVA" || o.f.Site == "SProvDelete" {
 					o.f.Kind = "KServer"
 				}
